@@ -81,6 +81,22 @@ for _c, _f in FORMULAS.items():
     except Exception as _e:
         TRANSLATE_ERRORS.append((_f, f'{type(_e).__name__}: {_e}'))
 
+# second sheet layout: blanks inside the key column (a heading row, a gap), whole-column references
+FORMULAS2 = {
+    'G1': '=MATCH(E1,A:A,0)',
+    'G2': '=INDEX(B:B,MATCH(E1,A:A,0))',
+    'G3': '=MATCH(E1,A1:A5,0)',
+    'G4': '=INDEX(B:B,E1)',
+    'G5': '=VLOOKUP(E1,A1:B5,2,FALSE)',
+    'G6': '=XMATCH(E1,A:A,0,-1)',
+}
+CONSTS2 = {'A2': 5, 'A4': 7, 'A5': 9, 'B2': 52, 'B4': 54, 'B5': 55, 'E1': 5}
+for _c, _f in FORMULAS2.items():
+    try:
+        K[_c] = build.load_class(build.translate_formulas({_c: _f}, CONSTS2), '_k' + _c)
+    except Exception as _e:
+        TRANSLATE_ERRORS.append((_f, f'{type(_e).__name__}: {_e}'))
+
 def ev(cell, **ov):
     """evaluate formula cell `cell` with overrides given as A1=value"""
     args = [{'uid': build.uid(0, a), 'value': v} for a, v in ov.items()]
@@ -187,7 +203,7 @@ def suite_formulas(tier):
 
     def add(name, sig, pre, body, **kw):
         import re
-        cells = sorted(set(re.findall(r"ev\('(F\d+)'", body)))
+        cells = sorted(set(re.findall(r"ev\('([FG]\d+)'", body)))
         _add(name, sig, pre, body, requires=' and '.join(f"'{c}' in K" for c in cells) or None, **kw)
     s.add = add
     s.add('f_match_exact', keys, "True", f'''
@@ -271,6 +287,42 @@ def suite_formulas(tier):
         s.add(f'f_address_cols_{lo}_{hi}', 'col: int', f'{lo} <= col <= {hi}', """
             return ev('F12', E1=7, E2=col) == '$' + colname(col) + '$7'
         """, encodes=enc + ('AddressControlConstructionTokenTranslator.translate',))
+    gk = 'a2: int, a4: int, a5: int, v: int'
+    s.add('g_match_wholecol_gaps', gk, 'True', '''
+        ks = [None, a2, None, a4, a5]
+        got = ev('G1', A2=a2, A4=a4, A5=a5, E1=v)
+        idx = [i for i, k in enumerate(ks) if k is not None and k == v]
+        return got == ((idx[0] + 1) if idx else NA)
+    ''', encodes=enc + ('Excel.get_matrix', 'Excel._get_vertical_range'))
+    s.add('g_match_range_gaps', gk, 'True', '''
+        ks = [None, a2, None, a4, a5]
+        got = ev('G3', A2=a2, A4=a4, A5=a5, E1=v)
+        idx = [i for i, k in enumerate(ks) if k is not None and k == v]
+        return got == ((idx[0] + 1) if idx else NA)
+    ''', encodes=enc)
+    s.add('g_xmatch_last_wholecol_gaps', gk, 'True', '''
+        ks = [None, a2, None, a4, a5]
+        got = ev('G6', A2=a2, A4=a4, A5=a5, E1=v)
+        idx = [i for i, k in enumerate(ks) if k is not None and k == v]
+        return got == ((idx[-1] + 1) if idx else NA)
+    ''', encodes=enc)
+    s.add('g_index_match_wholecol_gaps', gk + ', b2: int, b4: int, b5: int', 'v in [a2, a4, a5]', '''
+        ks = [None, a2, None, a4, a5]
+        got = ev('G2', A2=a2, A4=a4, A5=a5, B2=b2, B4=b4, B5=b5, E1=v)
+        i = [i for i, k in enumerate(ks) if k is not None and k == v][0]
+        return got == [None, b2, None, b4, b5][i]
+    ''', encodes=enc)
+    s.add('g_index_wholecol', 'r: int, b2: int, b4: int, b5: int', '1 <= r <= 6', '''
+        got = ev('G4', B2=b2, B4=b4, B5=b5, E1=r)
+        col = [0, b2, 0, b4, b5]
+        return got == (col[r - 1] if r <= 5 else '#REF!')
+    ''', encodes=enc, note='blank cells read as EmptyCell, which equals 0')
+    s.add('g_vlookup_gaps', gk + ', b2: int, b4: int, b5: int', 'v != 0', '''
+        ks = [None, a2, None, a4, a5]
+        got = ev('G5', A2=a2, A4=a4, A5=a5, B2=b2, B4=b4, B5=b5, E1=v)
+        idx = [i for i, k in enumerate(ks) if k is not None and k == v]
+        return got == ([None, b2, None, b4, b5][idx[0]] if idx else NA)
+    ''', encodes=enc)
     s.add('f_column', 'x: int', "True", '''
         return ev('F13', A1=x) == 3 and ev('F14', A1=x) == 6 and ev('F15', A1=x) == 28
     ''', encodes=('ColumnControlConstructionTokenTranslator.translate',))
